@@ -1,7 +1,7 @@
 // Unit U1b — the contract of `Segment::readv` that the Verus unit `commitlog` ASSUMES (the body is an iterator
 // chain outside the Verus subset), checked here on the real code.  Bounded in the segment length only
 // (data.len() <= 3); cursor, len and absolute offset are full-domain u64 under the precondition Verus proves at
-// both call sites (cursor.1 >= absolute_offset, len <= u32::MAX, absolute_offset + 2*len(data) <= u64::MAX).
+// both call sites (cursor.1 >= absolute_offset, absolute_offset + 2*len(data) <= u64::MAX).
 
 #[derive(Clone, Copy, PartialEq, Eq)]
 struct E(u8);
@@ -29,7 +29,7 @@ fn seg_readv_contract() {
     let cursor: (u64, u64) = (kani::any(), kani::any());
     let len: u64 = kani::any();
     kani::assume(cursor.1 >= abs);
-    kani::assume(len <= u32::MAX as u64);
+    // any count at all: "at most the requested count" includes u64::MAX ("everything")
     let mut out: Vec<(E, Offset)> = Vec::with_capacity(4);
     let r = seg.readv(cursor, len, &mut out);
     let idx = cursor.1 - abs;
@@ -39,7 +39,7 @@ fn seg_readv_contract() {
                 assert!(out.len() == 0, "C13 seg_readv.nothing_beyond_end");
                 assert!(matches!(pos, SegmentPosition::Done(x) if x == abs + n as u64), "C13 seg_readv.done_at_end");
             } else {
-                let cnt = if idx + len >= n as u64 { n as u64 - idx } else { len };
+                let cnt = if len >= n as u64 - idx { n as u64 - idx } else { len };
                 assert!(out.len() as u64 == cnt, "C13 seg_readv.count");
                 let mut k = 0usize;
                 while k < 3 {
@@ -50,7 +50,7 @@ fn seg_readv_contract() {
                     assert!(out[k].1 == (cursor.0, cursor.1 + k as u64), "C13 seg_readv.own_offsets");
                     k += 1;
                 }
-                if idx + len < n as u64 {
+                if len < n as u64 - idx {
                     assert!(matches!(pos, SegmentPosition::Next(x) if x == abs + idx + len), "C13 seg_readv.next_continuation");
                 } else {
                     assert!(matches!(pos, SegmentPosition::Done(x) if x == abs + n as u64), "C13 seg_readv.done_when_exhausted");
@@ -62,7 +62,7 @@ fn seg_readv_contract() {
             assert!(false, "C13 seg_readv.never_errs");
         }
     }
-    kani::cover!(idx < n as u64 && idx + len < n as u64, "partial read");
+    kani::cover!(idx < n as u64 && len < n as u64 - idx, "partial read");
     kani::cover!(idx < n as u64 && len == 0, "zero-length read inside the segment");
     core::mem::forget(out);
     core::mem::forget(seg);
